@@ -86,60 +86,82 @@ Proof.
   destruct (idx_eqb b bn); cbn [map snd gsum nadd n0 Rops]; lra.
 Qed.
 
-(* ---------------------------------------------------------------- side condition of the partial theorem *)
+(* ---------------------------------------------------------------- lagged convention: the invariant *)
 
-(* In the lagged convention two behaviours of colvar.cpp make the recorded sample differ from
-   "measured total force minus the forces Colvars was applying":
-   - colvar::communicate_forces drops the force when the value of the variable is exactly 0
-     (cvm::integer_power(0, 0) = 0), so the measured force does not contain it;
-   - colvar::calc_colvar_properties skips `ft -= f_old` when the measured total force is exactly 0.
-   [clean_io] excludes both for one step of the trace. *)
-Definition clean_io (c : @abf_cfg R) (io : @abf_in R * @abf_out R) : Prop :=
-  forall k, (k < c_nd c)%nat ->
-    vget Rops (i_x (fst io)) k <> 0 /\
-    (bget (c_subtract c) k = true -> vget Rops (i_e (fst io)) k + vget Rops (o_f (snd io)) k <> 0).
-
-(* what the state remembers of the previous step p (lagged convention) *)
+(* what the state remembers of the previous step p (lagged convention): the bin of p, the force the
+   engine measured at p (its own force + everything Colvars applied), the ABF force of p, f_old of the
+   variables with subtractAppliedForce, and the Jacobian force of p *)
 Definition link (c : @abf_cfg R) (s : @abf_state R) (p : @abf_in R * @abf_out R) : Prop :=
   s_started s = true /\
   s_fbin s = bins Rops c (i_x (fst p)) /\
-  (forall k, (k < c_nd c)%nat -> vget Rops (s_eng s) k = vget Rops (i_e (fst p)) k + vget Rops (o_f (snd p)) k) /\
-  (forall k, (k < c_nd c)%nat -> vget Rops (s_fabf s) k = vget Rops (o_fabf (snd p)) k) /\
-  (forall k, (k < c_nd c)%nat -> bget (c_subtract c) k = true -> vget Rops (s_fold s) k = vget Rops (o_f (snd p)) k).
+  (forall k, (k < c_nd c)%nat ->
+     vget Rops (s_eng s) k = if cvapply c (fst p) k then vget Rops (i_e (fst p)) k + vget Rops (o_f (snd p)) k
+                             else vget Rops (i_e (fst p)) k) /\
+  (forall k, (k < c_nd c)%nat -> vget Rops (s_fprev s) k = vget Rops (o_fapp (snd p)) k) /\
+  (forall k, (k < c_nd c)%nat -> bget (c_subtract c) k = true -> vget Rops (s_fold s) k = vget Rops (o_f (snd p)) k) /\
+  (forall k, (k < c_nd c)%nat -> vget Rops (s_fj s) k = vget Rops (i_j (fst p)) k) /\
+  (* a variable to which no bias applies a force: the ABF force is 0, and so is colvar::f *)
+  (forall k, (k < c_nd c)%nat -> cvapply c (fst p) k = false ->
+     vget Rops (o_fapp (snd p)) k = 0 /\ vget Rops (o_f (snd p)) k = 0).
 
-Lemma link_step c s i :
-  clean_io c (i, snd (abf_step Rops c s i)) ->
-  link c (fst (abf_step Rops c s i)) (i, snd (abf_step Rops c s i)).
+Lemma link_step c s i : link c (fst (abf_step Rops c s i)) (i, snd (abf_step Rops c s i)).
 Proof.
-  intros Hc. unfold abf_step in *. cbn [fst snd o_f] in Hc.
-  unfold link. cbn [fst snd s_started s_fbin s_eng s_fabf s_fold o_f o_fabf].
-  split; [reflexivity|]. split; [reflexivity|]. split; [|split].
-  - intros k Hk. unfold st_eng. rewrite vget_vbuild by exact Hk.
-    destruct (Hc k Hk) as [Hx _]. cbn [neqb n0 nadd Rops]. rewrite Reqb_false by exact Hx. reflexivity.
+  unfold abf_step, link. cbn [fst snd s_started s_fbin s_eng s_fprev s_fold s_fj o_f o_fapp].
+  split; [reflexivity|]. split; [reflexivity|]. split; [|split; [|split; [|split]]].
+  - intros k Hk. unfold st_eng. rewrite vget_vbuild by exact Hk. cbn [fst]. destruct (cvapply c i k); reflexivity.
   - intros k Hk. reflexivity.
   - intros k Hk Hs. unfold st_fold. rewrite vget_vbuild by exact Hk. rewrite Hs. reflexivity.
+  - intros k Hk. unfold st_fj. rewrite vget_vbuild by exact Hk. reflexivity.
+  - intros k Hk Hcv. cbn [fst] in Hcv. pose proof Hcv as Hcv'.
+    unfold cvapply in Hcv. apply orb_false_iff in Hcv. destruct Hcv as [Ha Ho].
+    assert (Hf : vget Rops (st_fapp Rops c s i) k = 0).
+    { unfold st_fapp. rewrite vget_vbuild by exact Hk. unfold st_fabf. rewrite Ha. cbn [andb].
+      rewrite vget_vzero. cbn [nmul Rops]. lra. }
+    split; [exact Hf|]. unfold st_f. rewrite vget_vbuild by exact Hk.
+    rewrite Hcv', andb_false_r, Hf. unfold oeff. rewrite Ho. cbn [nadd n0 Rops]. lra.
 Qed.
 
 (* ---------------------------------------------------------------- one step, lagged convention *)
 
+(* side condition of the partial theorem: with hideJacobian in the lagged convention applyBias is not
+   switched at run time: colvar::collect_cvc_total_forces decides whether the compensating force -fj is
+   contained in the force of the PREVIOUS step by looking at f_cv_apply_force NOW *)
+Definition steady (c : @abf_cfg R) (a : bool) (h : list (@abf_in R)) : Prop :=
+  c_hidej c = true -> c_same_step c = false -> Forall (fun i => i_apply i = a) h.
+
 Lemma sysf_lag c s i p k :
+  (c_hidej c = true -> i_apply i = i_apply (fst p)) ->
   c_same_step c = false -> c_update c = true -> (0 <? fst (st_clk s i))%Z = true ->
-  link c s p -> clean_io c p -> (k < c_nd c)%nat ->
+  link c s p -> (k < c_nd c)%nat ->
   vget Rops (st_sysf Rops c s i) k = vget Rops (sample_force Rops c p) k.
 Proof.
-  intros Hsame Hupd Hrel (Hst & Hfb & Heng & Hfabf & Hfold) Hc Hk.
-  destruct (Hc k Hk) as [_ Hnz].
+  intros Hjok Hsame Hupd Hrel (Hst & Hfb & Heng & Hfapp & Hfold & Hfj & Hnoapp) Hk.
   unfold st_sysf. rewrite vget_vbuild by exact Hk.
   unfold st_ft. rewrite Hsame. rewrite vget_vbuild by exact Hk.
   unfold st_ft0. rewrite vget_vbuild by exact Hk.
-  rewrite Hupd, Hsame, Hrel. cbn [orb]. rewrite (Heng k Hk).
+  rewrite Hupd, Hsame, Hrel. cbn [orb]. rewrite (Heng k Hk), (Hfj k Hk).
   unfold sample_force. rewrite vget_vbuild by exact Hk.
-  unfold measured, own. rewrite Hsame.
-  destruct (bget (c_subtract c) k) eqn:Hs.
-  - cbn [andb orb nltb nmul n0 nsub nadd Rops].
-    rewrite Rltb_sq_pos by (apply Hnz; reflexivity).
-    rewrite (Hfold k Hk Hs). reflexivity.
-  - cbn [andb orb nsub nadd Rops]. rewrite (Hfabf k Hk). reflexivity.
+  unfold measured, own, jac, addj. rewrite Hsame.
+  assert (Hcvi : c_hidej c = true -> cvapply c i k = cvapply c (fst p) k).
+  { intros Hh. unfold cvapply. rewrite (Hjok Hh). reflexivity. }
+  destruct (c_hidej c) eqn:Hh.
+  - rewrite (Hcvi eq_refl).
+    destruct (cvapply c (fst p) k) eqn:Hcv.
+    + destruct (bget (c_subtract c) k) eqn:Hs;
+        cbn [andb orb negb nsub nadd n0 Rops];
+        try rewrite (Hfold k Hk Hs); try rewrite (Hfapp k Hk); lra.
+    + destruct (Hnoapp k Hk Hcv) as [Hf0 Hof].
+      destruct (bget (c_subtract c) k) eqn:Hs;
+        cbn [andb orb negb nsub nadd n0 Rops];
+        try rewrite (Hfold k Hk Hs); try rewrite (Hfapp k Hk); lra.
+  - destruct (cvapply c (fst p) k) eqn:Hcv.
+    + destruct (bget (c_subtract c) k) eqn:Hs;
+        cbn [andb orb negb nsub nadd n0 Rops];
+        try rewrite (Hfold k Hk Hs); try rewrite (Hfapp k Hk); lra.
+    + destruct (Hnoapp k Hk Hcv) as [Hf0 Hof].
+      destruct (bget (c_subtract c) k) eqn:Hs;
+        cbn [andb orb negb nsub nadd n0 Rops];
+        try rewrite (Hfold k Hk Hs); try rewrite (Hfapp k Hk); lra.
 Qed.
 
 Lemma doacc_lag c s i p :
@@ -153,14 +175,14 @@ Proof.
 Qed.
 
 Lemma step_lag c s i p b :
-  c_same_step c = false -> c_szd c = false -> link c s p -> clean_io c p ->
+  (c_hidej c = true -> i_apply i = i_apply (fst p)) -> c_same_step c = false -> c_szd c = false -> link c s p ->
   let s1 := fst (abf_step Rops c s i) in
   let o := snd (abf_step Rops c s i) in
   let A := attributed_of c [(bins Rops c (i_x (fst p)), sample_force Rops c p, (o_rel o, o_cont o))] in
   s_cnt s1 b = (s_cnt s b + cnt_of b A)%Z /\
   forall k, (k < c_nd c)%nat -> vget Rops (s_sum s1 b) k = vget Rops (s_sum s b) k - fsum_of k b A.
 Proof.
-  intros Hsame Hszd Hl Hc. cbn zeta.
+  intros Hjok Hsame Hszd Hl. cbn zeta.
   unfold abf_step. cbn [fst snd s_cnt s_sum o_rel o_cont].
   rewrite attributed_of_one. rewrite <- surjective_pairing.
   unfold st_cnt, st_sum. rewrite (doacc_lag c s i p Hsame Hszd Hl).
@@ -175,29 +197,33 @@ Proof.
         apply andb_true_iff in E. destruct E as [E1 _]. unfold eligible in E1.
         apply andb_true_iff in E1. destruct E1 as [Hupd E2]. rewrite Hszd in E2.
         rewrite orb_false_r in E2. apply andb_true_iff in E2. destruct E2 as [Hrel _].
-        rewrite (sysf_lag c s i p k Hsame Hupd Hrel Hl Hc Hk). reflexivity.
+        rewrite (sysf_lag c s i p k Hjok Hsame Hupd Hrel Hl Hk). reflexivity.
       * lra.
   - split; [unfold cnt_of; cbn; lia | intros k Hk; unfold fsum_of; cbn; lra].
 Qed.
 
 Lemma run_lag c : c_same_step c = false -> c_szd c = false ->
-  forall h s p, link c s p -> clean_io c p ->
-    Forall (clean_io c) (combine h (snd (abf_run_from Rops c s h))) ->
+  forall h s p, link c s p ->
+    (c_hidej c = true -> Forall (fun i => i_apply i = i_apply (fst p)) h) ->
     forall b,
       let r := abf_run_from Rops c s h in
       let A := attributed_of c (deliveries_lag Rops c (Some p) (combine h (snd r))) in
       s_cnt (fst r) b = (s_cnt s b + cnt_of b A)%Z /\
       forall k, (k < c_nd c)%nat -> vget Rops (s_sum (fst r) b) k = vget Rops (s_sum s b) k - fsum_of k b A.
 Proof.
-  intros Hsame Hszd h. induction h as [|i h IH]; intros s p Hl Hc Hall b; cbn zeta.
+  intros Hsame Hszd h. induction h as [|i h IH]; intros s p Hl Hst b; cbn zeta.
   - cbn [abf_run_from fst snd combine deliveries_lag]. unfold attributed_of, cnt_of, fsum_of. cbn.
     split; [lia | intros k Hk; lra].
   - cbn [abf_run_from fst snd combine deliveries_lag] in *.
-    inversion Hall as [|x l Hio Hrest]; subst.
-    pose proof (link_step c s i Hio) as Hl1.
-    specialize (IH (fst (abf_step Rops c s i)) (i, snd (abf_step Rops c s i)) Hl1 Hio Hrest b).
+    pose proof (link_step c s i) as Hl1.
+    assert (Hhead : c_hidej c = true -> i_apply i = i_apply (fst p)).
+    { intros Hh. specialize (Hst Hh). inversion Hst as [|x l Hx Hr]; subst. exact Hx. }
+    assert (Htail : c_hidej c = true -> Forall (fun i' => i_apply i' = i_apply (fst (i, snd (abf_step Rops c s i)))) h).
+    { intros Hh. specialize (Hst Hh). inversion Hst as [|x l Hx Hr]; subst. cbn [fst].
+      rewrite Hx. exact Hr. }
+    specialize (IH (fst (abf_step Rops c s i)) (i, snd (abf_step Rops c s i)) Hl1 Htail b).
     cbn zeta in IH. destruct IH as [IHc IHs].
-    pose proof (step_lag c s i p b Hsame Hszd Hl Hc) as Hstep. cbn zeta in Hstep.
+    pose proof (step_lag c s i p b Hhead Hsame Hszd Hl) as Hstep. cbn zeta in Hstep.
     destruct Hstep as [Sc Ss].
     rewrite attributed_of_app, cnt_of_app. split.
     + rewrite IHc, Sc. lia.
@@ -232,12 +258,13 @@ Proof.
       * rewrite vget_vbuild by exact Hk. cbn [nsub Rops].
         apply andb_true_iff in E. destruct E as [E1 _]. unfold eligible in E1.
         apply andb_true_iff in E1. destruct E1 as [Hupd _].
-        assert (Hsf : vget Rops (st_sysf Rops c s i) k = vget Rops (sample_force Rops c (i, mkOut (st_bin Rops c i) (st_fabf Rops c s i) (st_f Rops c s i) (fst (st_clk s i)) (snd (st_clk s i)) (st_ft Rops c s i))) k).
+        assert (Hsf : vget Rops (st_sysf Rops c s i) k = vget Rops (sample_force Rops c (i, mkOut (st_bin Rops c i) (st_fabf Rops c s i) (st_fapp Rops c s i) (st_f Rops c s i) (fst (st_clk s i)) (snd (st_clk s i)) (st_ft Rops c s i))) k).
         { unfold st_sysf. rewrite vget_vbuild by exact Hk. rewrite Hsame, orb_true_r.
           unfold st_ft. rewrite Hsame. unfold st_ft0. rewrite vget_vbuild by exact Hk.
           rewrite Hupd, Hsame. cbn [orb].
-          unfold sample_force. rewrite vget_vbuild by exact Hk. unfold measured, own. rewrite Hsame.
-          cbn [fst nsub n0 Rops]. lra. }
+          unfold sample_force. rewrite vget_vbuild by exact Hk. unfold measured, own, jac, addj. rewrite Hsame.
+          rewrite orb_true_r, andb_true_r.
+          destruct (c_hidej c); cbn [negb fst nsub nadd n0 Rops]; lra. }
         rewrite Hsf. reflexivity.
       * lra.
   - split; [unfold cnt_of; cbn; lia | intros k Hk; unfold fsum_of; cbn; lra].
@@ -262,51 +289,187 @@ Proof.
     + intros k Hk. rewrite fsum_of_app. unfold deliveries_same in IHs. rewrite (IHs k Hk), (Ss k Hk). lra.
 Qed.
 
-(* ---------------------------------------------------------------- T1 (partial: clean traces) *)
+(* ---------------------------------------------------------------- T1 *)
 
+(* stepZeroData is only available with same-step total forces (colvarbias_abf::init:
+   provide(f_cvb_step_zero_data, false) otherwise; the configuration is then rejected) *)
 Definition wf_cfg (c : @abf_cfg R) : Prop := c_szd c = true -> c_same_step c = true.
 
 Local Notation trace_of := (trace_of Rops).
+Local Notation trace_from := (trace_from Rops).
 
-Lemma first_step_lag c i :
-  c_szd c = false -> c_same_step c = false -> st_doacc Rops c (abf_init Rops c) i = false.
+(* a state in which no step was made yet: the freshly initialised bias, with or without data read
+   through inputPrefix *)
+Definition fresh (s : @abf_state R) : Prop := s_started s = false /\ s_rel s = 0%Z.
+
+Lemma first_step_lag c s i :
+  fresh s -> c_szd c = false -> c_same_step c = false -> st_doacc Rops c s i = false.
 Proof.
-  intros Hszd Hsame. unfold st_doacc, st_clk, abf_init, clock. cbn [s_started s_rel fst snd].
-  rewrite Hszd. cbn. reflexivity.
+  intros [Hst Hrel] Hszd Hsame. unfold st_doacc, st_clk, clock. rewrite Hst, Hrel.
+  cbn [fst snd]. rewrite Hszd. cbn. reflexivity.
 Qed.
 
-Theorem abf_state_is_sample_sum_partial (c : @abf_cfg R) (h : list (@abf_in R)) (b : idx) :
-  wf_cfg c ->
-  (c_same_step c = false -> Forall (clean_io c) (trace_of c h)) ->
+Lemma steady_forall c a h : steady c a h -> c_same_step c = false -> c_hidej c = true -> Forall (fun i => i_apply i = a) h.
+Proof. intros H Hs Hh. exact (H Hh Hs). Qed.
+
+(* from ANY fresh state s0: what the history adds to the grids of s0 *)
+Theorem run_from_fresh (c : @abf_cfg R) (s0 : @abf_state R) (h : list (@abf_in R)) (b : idx) (a : bool) :
+  wf_cfg c -> steady c a h -> fresh s0 ->
+  let r := abf_run_from Rops c s0 h in
+  let S := attributed Rops c (trace_from c s0 h) in
+  s_cnt (fst r) b = (s_cnt s0 b + cnt_of b S)%Z /\
+  forall k, (k < c_nd c)%nat -> vget Rops (s_sum (fst r) b) k = vget Rops (s_sum s0 b) k - fsum_of k b S.
+Proof.
+  intros Hwf Hsteady Hfresh. cbn zeta. unfold attributed, deliveries, ABFModel.trace_from.
+  destruct (c_same_step c) eqn:Hsame.
+  - pose proof (run_same c Hsame h s0 b) as H. cbn zeta in H. exact H.
+  - assert (Hszd : c_szd c = false).
+    { destruct (c_szd c) eqn:E; [|reflexivity]. unfold wf_cfg in Hwf. specialize (Hwf E). congruence. }
+    destruct h as [|i0 h].
+    + cbn [abf_run_from fst snd combine deliveries_lag]. unfold attributed_of. cbn [filter map].
+      unfold cnt_of, fsum_of, samples_in. cbn [filter map length gsum n0 Rops].
+      split; [lia | intros k Hk; lra].
+    + cbn [abf_run_from fst snd combine deliveries_lag app] in *.
+      pose proof (link_step c s0 i0) as Hl.
+      assert (Hst : c_hidej c = true -> Forall (fun i' => i_apply i' = i_apply (fst (i0, snd (abf_step Rops c s0 i0)))) h).
+      { intros Hh. pose proof (steady_forall c a _ Hsteady Hsame Hh) as HF.
+        inversion HF as [|x l Hx Hr]. cbn [fst]. rewrite Hx. exact Hr. }
+      pose proof (run_lag c Hsame Hszd h _ _ Hl Hst b) as H. cbn zeta in H. destruct H as [Hc Hs].
+      assert (Hc0 : s_cnt (fst (abf_step Rops c s0 i0)) b = s_cnt s0 b).
+      { unfold abf_step. cbn [fst s_cnt]. unfold st_cnt. rewrite first_step_lag by assumption. reflexivity. }
+      assert (Hs0 : s_sum (fst (abf_step Rops c s0 i0)) b = s_sum s0 b).
+      { unfold abf_step. cbn [fst s_sum]. unfold st_sum. rewrite first_step_lag by assumption. reflexivity. }
+      split.
+      * rewrite Hc, Hc0. reflexivity.
+      * intros k Hk. rewrite (Hs k Hk), Hs0. reflexivity.
+Qed.
+
+Lemma fresh_init c : fresh (abf_init Rops c).
+Proof. split; reflexivity. Qed.
+Lemma fresh_add_data c s d : fresh s -> fresh (abf_add_data Rops c s d).
+Proof. intros [H1 H2]. split; assumption. Qed.
+Lemma fresh_fold c l : forall s, fresh s -> fresh (fold_left (abf_add_data Rops c) l s).
+Proof. induction l as [|d l IH]; intros s H; cbn [fold_left]; [exact H | apply IH, fresh_add_data, H]. Qed.
+Lemma fresh_init_data c l : fresh (abf_init_data Rops c l).
+Proof. unfold abf_init_data. apply fresh_fold, fresh_init. Qed.
+
+(* what the data sets contain: the summed counts, and the summed gradient * count *)
+Fixpoint data_cnt (l : list (@dataset R)) (b : idx) : Z :=
+  match l with [] => 0%Z | d :: r => (fst d b + data_cnt r b)%Z end.
+Fixpoint data_sum (l : list (@dataset R)) (b : idx) (k : nat) : R :=
+  match l with [] => 0 | d :: r => vget Rops (snd d b) k * IZR (fst d b) + data_sum r b k end.
+
+Lemma fold_data_grids c l : forall s b,
+  s_cnt (fold_left (abf_add_data Rops c) l s) b = (s_cnt s b + data_cnt l b)%Z /\
+  forall k, (k < c_nd c)%nat ->
+    vget Rops (s_sum (fold_left (abf_add_data Rops c) l s) b) k = vget Rops (s_sum s b) k + data_sum l b k.
+Proof.
+  induction l as [|d l IH]; intros s b; cbn [fold_left data_cnt data_sum].
+  - split; [lia | intros k Hk; lra].
+  - destruct (IH (abf_add_data Rops c s d) b) as [Hc Hs]. split.
+    + rewrite Hc. unfold abf_add_data. cbn [s_cnt]. lia.
+    + intros k Hk. rewrite (Hs k Hk). unfold abf_add_data. cbn [s_sum]. rewrite vget_vbuild by exact Hk.
+      cbn [nadd nmul nofZ Rops]. lra.
+Qed.
+
+Theorem abf_state_is_sample_sum (c : @abf_cfg R) (h : list (@abf_in R)) (b : idx) (a : bool) :
+  wf_cfg c -> steady c a h ->
   s_cnt (fst (abf_run Rops c h)) b = cnt_of b (attributed Rops c (trace_of c h)) /\
   forall k, (k < c_nd c)%nat ->
     vget Rops (s_sum (fst (abf_run Rops c h)) b) k = - fsum_of k b (attributed Rops c (trace_of c h)).
 Proof.
-  intros Hwf Hclean. unfold attributed, deliveries, trace_of, abf_run in *.
-  destruct (c_same_step c) eqn:Hsame.
-  - pose proof (run_same c Hsame h (abf_init Rops c) b) as H. cbn zeta in H. destruct H as [Hc Hs].
-    split.
-    + rewrite Hc. unfold abf_init. cbn [s_cnt]. lia.
-    + intros k Hk. rewrite (Hs k Hk). unfold abf_init. cbn [s_sum]. rewrite vget_vzero. lra.
-  - assert (Hszd : c_szd c = false).
-    { destruct (c_szd c) eqn:E; [|reflexivity]. unfold wf_cfg in Hwf. specialize (Hwf E). congruence. }
-    specialize (Hclean eq_refl).
-    destruct h as [|i0 h].
-    + cbn [abf_run_from fst snd combine deliveries_lag]. unfold attributed_of. cbn [filter map].
-      unfold cnt_of, fsum_of, samples_in. cbn [filter map length gsum n0 Rops]. unfold abf_init. cbn [s_cnt s_sum].
-      split; [reflexivity | intros k Hk; rewrite vget_vzero; lra].
-    + cbn [abf_run_from fst snd combine deliveries_lag app] in *.
-      inversion Hclean as [|x l Hio Hrest]; subst.
-      pose proof (link_step c (abf_init Rops c) i0 Hio) as Hl.
-      pose proof (run_lag c Hsame Hszd h _ _ Hl Hio Hrest b) as H. cbn zeta in H. destruct H as [Hc Hs].
-      assert (Hc0 : s_cnt (fst (abf_step Rops c (abf_init Rops c) i0)) b = 0%Z).
-      { unfold abf_step. cbn [fst s_cnt]. unfold st_cnt. rewrite first_step_lag by assumption. reflexivity. }
-      assert (Hs0 : forall k, vget Rops (s_sum (fst (abf_step Rops c (abf_init Rops c) i0)) b) k = 0).
-      { intros k. unfold abf_step. cbn [fst s_sum]. unfold st_sum. rewrite first_step_lag by assumption.
-        unfold abf_init. cbn [s_sum]. apply vget_vzero. }
-      split.
-      * rewrite Hc, Hc0. lia.
-      * intros k Hk. rewrite (Hs k Hk), Hs0. lra.
+  intros Hwf Hst.
+  pose proof (run_from_fresh c (abf_init Rops c) h b a Hwf Hst (fresh_init c)) as H. cbn zeta in H.
+  destruct H as [Hc Hs]. unfold abf_run, ABFModel.trace_of. split.
+  - rewrite Hc. unfold abf_init. cbn [s_cnt]. lia.
+  - intros k Hk. rewrite (Hs k Hk). unfold abf_init. cbn [s_sum]. rewrite vget_vzero. lra.
+Qed.
+
+(* inputPrefix: the grids after a history started from data read from files are that data plus the samples
+   of the history: count = counts read + number, sum = sum of gradient read * count read - sum of the forces *)
+Theorem abf_state_with_input_data (c : @abf_cfg R) (l : list (@dataset R))
+        (h : list (@abf_in R)) (b : idx) (a : bool) :
+  wf_cfg c -> steady c a h ->
+  let s0 := abf_init_data Rops c l in
+  let r := abf_run_data Rops c l h in
+  let S := attributed Rops c (trace_from c s0 h) in
+  s_cnt (fst r) b = (data_cnt l b + cnt_of b S)%Z /\
+  forall k, (k < c_nd c)%nat ->
+    vget Rops (s_sum (fst r) b) k = data_sum l b k - fsum_of k b S.
+Proof.
+  intros Hwf Hst. cbn zeta.
+  pose proof (run_from_fresh c (abf_init_data Rops c l) h b a Hwf Hst (fresh_init_data c l)) as H.
+  cbn zeta in H. destruct H as [Hc Hs]. unfold abf_run_data.
+  destruct (fold_data_grids c l (abf_init Rops c) b) as [Dc Ds]. fold (abf_init_data Rops c l) in Dc, Ds. split.
+  - rewrite Hc, Dc. unfold abf_init. cbn [s_cnt]. lia.
+  - intros k Hk. rewrite (Hs k Hk), (Ds k Hk). unfold abf_init. cbn [s_sum]. rewrite vget_vzero. lra.
+Qed.
+
+(* ---------------------------------------------------------------- whole-vector form *)
+
+Lemma vbuild_length (n : nat) (f : nat -> R) : length (vbuild n f) = n.
+Proof. unfold vbuild. rewrite map_length, seq_length. reflexivity. Qed.
+
+Lemma vec_ext (n : nat) (u v : list R) :
+  length u = n -> length v = n -> (forall k, (k < n)%nat -> vget Rops u k = vget Rops v k) -> u = v.
+Proof.
+  intros Hu Hv H. apply nth_ext with (d := 0) (d' := 0); [congruence|].
+  intros k Hk. apply H. lia.
+Qed.
+
+Lemma sum_length_step c s i : (forall b, length (s_sum s b) = c_nd c) ->
+  forall b, length (st_sum Rops c s i b) = c_nd c.
+Proof.
+  intros H b. unfold st_sum. destruct (st_doacc Rops c s i); [|apply H].
+  destruct (idx_eqb b (st_fbin Rops c s i)); [apply vbuild_length | apply H].
+Qed.
+
+Lemma sum_length_run c h : forall s, (forall b, length (s_sum s b) = c_nd c) ->
+  forall b, length (s_sum (fst (abf_run_from Rops c s h)) b) = c_nd c.
+Proof.
+  induction h as [|i h IH]; intros s H b; cbn [abf_run_from fst snd]; [apply H|].
+  apply IH. unfold abf_step. cbn [fst s_sum]. apply sum_length_step. exact H.
+Qed.
+
+Theorem abf_sum_vector (c : @abf_cfg R) (h : list (@abf_in R)) (b : idx) (a : bool) :
+  wf_cfg c -> steady c a h ->
+  s_sum (fst (abf_run Rops c h)) b
+  = vbuild (c_nd c) (fun k => - fsum_of k b (attributed Rops c (ABFModel.trace_of Rops c h))).
+Proof.
+  intros Hwf Hjok. apply vec_ext with (n := c_nd c).
+  - unfold abf_run. apply sum_length_run. intros b'. unfold abf_init. cbn [s_sum]. apply vbuild_length.
+  - apply vbuild_length.
+  - intros k Hk. rewrite vget_vbuild by exact Hk.
+    destruct (abf_state_is_sample_sum c h b a Hwf Hjok) as [_ Hs]. apply Hs. exact Hk.
+Qed.
+
+(* ---------------------------------------------------------------- the stored gradient is minus the mean *)
+
+(* arithmetic mean of the k-th force component of the attributed samples of bin b *)
+Definition mean_force (S : list (idx * @vec R)) (b : idx) (k : nat) : R :=
+  fsum_of k b S / IZR (cnt_of b S).
+
+Lemma cnt_of_nonneg b (S : list (idx * @vec R)) : (0 <= cnt_of b S)%Z.
+Proof. unfold cnt_of. lia. Qed.
+
+(* [grad_out] is colvar_grid_gradient::value_output, what the state file and the .grad file contain *)
+Theorem stored_gradient_is_minus_mean (c : @abf_cfg R) (h : list (@abf_in R)) (b : idx) (k : nat) (a : bool) :
+  wf_cfg c -> steady c a h -> (k < c_nd c)%nat ->
+  let s := fst (abf_run Rops c h) in
+  let S := attributed Rops c (ABFModel.trace_of Rops c h) in
+  s_cnt s b = cnt_of b S /\
+  ((0 < cnt_of b S)%Z -> grad_out Rops (s_cnt s) (s_sum s) b k = - mean_force S b k) /\
+  (cnt_of b S = 0%Z -> grad_out Rops (s_cnt s) (s_sum s) b k = 0).
+Proof.
+  intros Hwf Hjok Hk. cbn zeta.
+  destruct (abf_state_is_sample_sum c h b a Hwf Hjok) as [Hc Hs].
+  split; [exact Hc|]. unfold grad_out, mean_force. cbn [n0 n1 ndiv nmul nofZ Rops].
+  rewrite Hc, (Hs k Hk). split.
+  - intros Hpos. destruct (0 <? cnt_of b (attributed Rops c (ABFModel.trace_of Rops c h)))%Z eqn:E;
+      [|apply Z.ltb_ge in E; lia].
+    assert (0 < IZR (cnt_of b (attributed Rops c (ABFModel.trace_of Rops c h)))) by (apply IZR_lt; exact Hpos).
+    field. lra.
+  - intros Hz. rewrite Hz. cbn [Z.ltb Z.compare]. lra.
 Qed.
 
 (* ---------------------------------------------------------------- run boundary *)
@@ -326,6 +489,35 @@ Proof.
   unfold st_cnt, st_sum. rewrite Hd. split; reflexivity.
 Qed.
 
+Lemma run_from_app c h1 : forall s h2,
+  fst (abf_run_from Rops c s (h1 ++ h2)) = fst (abf_run_from Rops c (fst (abf_run_from Rops c s h1)) h2).
+Proof.
+  induction h1 as [|i h1 IH]; intros s h2; cbn [app abf_run_from fst snd]; [reflexivity|]. apply IH.
+Qed.
+
+Lemma run_snoc c h i :
+  fst (abf_run Rops c (h ++ [i])) = fst (abf_step Rops c (fst (abf_run Rops c h)) i).
+Proof. unfold abf_run. rewrite run_from_app. cbn [abf_run_from fst snd]. reflexivity. Qed.
+
+Lemma started_after_run c h : forall s, (h <> [] \/ s_started s = true) ->
+  s_started (fst (abf_run_from Rops c s h)) = true.
+Proof.
+  induction h as [|i h IH]; intros s H; cbn [abf_run_from fst snd].
+  - destruct H as [H|H]; [contradiction H; reflexivity | exact H].
+  - apply IH. right. reflexivity.
+Qed.
+
+(* phrased on histories: appending the repeated step of a run boundary to any non-empty history
+   changes no count and no sum *)
+Theorem run_boundary_history c h i :
+  c_szd c = false -> i_boundary i = true -> h <> [] ->
+  s_cnt (fst (abf_run Rops c (h ++ [i]))) = s_cnt (fst (abf_run Rops c h)) /\
+  s_sum (fst (abf_run Rops c (h ++ [i]))) = s_sum (fst (abf_run Rops c h)).
+Proof.
+  intros Hszd Hb Hne. rewrite run_snoc. apply run_boundary_no_sample; try assumption.
+  unfold abf_run. apply started_after_run. left. exact Hne.
+Qed.
+
 (* ---------------------------------------------------------------- applied force *)
 
 (* the stored estimate of the free-energy gradient in bin b: sum / count (minus the mean force) *)
@@ -340,14 +532,18 @@ Definition ramp (c : @abf_cfg R) (N : Z) : R :=
 
 Definition clip (m f : R) : R := Rmax (- m) (Rmin m f).
 
-(* average over the bins of a one-dimensional grid of the stored gradient estimate *)
-Definition avg_grad (c : @abf_cfg R) (cnt : idx -> Z) (sum : idx -> @vec R) : R :=
-  rsum (map (fun i => mean_grad cnt sum [i] 0) (zrange (zget (c_nx c) 0))) / IZR (zget (c_nx c) 0).
+(* the ramped estimate of bin b *)
+Definition ramped (c : @abf_cfg R) (cnt : idx -> Z) (sum : idx -> @vec R) (b : idx) (k : nat) : R :=
+  ramp c (cnt b) * mean_grad cnt sum b k.
 
-Definition spec_force (c : @abf_cfg R) (cnt : idx -> Z) (sum : idx -> @vec R) (b : idx) (k : nat) : R :=
-  if c_apply c && index_ok c b then
-    let f := ramp c (cnt b) * mean_grad cnt sum b k
-             - (if Nat.eqb (c_nd c) 1 && bget (c_periodic c) 0 then avg_grad c cnt sum else 0) in
+(* average over the bins of a one-dimensional grid of the ramped estimates *)
+Definition avg_ramped (c : @abf_cfg R) (cnt : idx -> Z) (sum : idx -> @vec R) : R :=
+  rsum (map (fun i => ramped c cnt sum [i] 0) (zrange (zget (c_nx c) 0))) / IZR (zget (c_nx c) 0).
+
+Definition spec_force (c : @abf_cfg R) (a : bool) (cnt : idx -> Z) (sum : idx -> @vec R) (b : idx) (k : nat) : R :=
+  if a && index_ok c b then
+    let f := ramped c cnt sum b k
+             - (if Nat.eqb (c_nd c) 1 && bget (c_periodic c) 0 then avg_ramped c cnt sum else 0) in
     if c_cap c then clip (vget Rops (c_maxf c) k) f else f
   else 0.
 
@@ -368,13 +564,10 @@ Proof.
     + field. lra.
 Qed.
 
-Lemma inv_weight_mean (cnt : idx -> Z) (sum : idx -> @vec R) b k :
-  inv_weight Rops (cnt b) * vget Rops (sum b) k = mean_grad cnt sum b k.
-Proof.
-  unfold inv_weight, mean_grad. cbn [n0 n1 ndiv nofZ Rops].
-  destruct (0 <? cnt b)%Z eqn:E; [|lra].
-  apply Z.ltb_lt in E. assert (0 < IZR (cnt b)) by (apply IZR_lt; exact E). field. lra.
-Qed.
+Lemma siw_ramped c (cnt : idx -> Z) (sum : idx -> @vec R) b k :
+  (0 <= c_min c < c_full c)%Z -> (0 <= cnt b)%Z ->
+  smooth_inverse_weight Rops c (cnt b) * vget Rops (sum b) k = ramped c cnt sum b k.
+Proof. intros Hmf Hc. rewrite (siw_ramp c (cnt b) _ Hmf Hc). reflexivity. Qed.
 
 Lemma fold_left_add (g : Z -> R) (l : list Z) (a : R) :
   fold_left (fun acc i => acc + g i) l a = a + rsum (map g l).
@@ -383,13 +576,14 @@ Proof.
   rewrite IH. lra.
 Qed.
 
-Lemma average_avg c cnt sum : average Rops c cnt sum = avg_grad c cnt sum.
+Lemma average_avg c cnt sum : (0 <= c_min c < c_full c)%Z -> (forall b, 0 <= cnt b)%Z ->
+  average Rops c cnt sum = avg_ramped c cnt sum.
 Proof.
-  unfold average, avg_grad. cbn [n0 ndiv nadd nmul nofZ Rops].
+  intros Hmf Hcnt. unfold average, avg_ramped. cbn [n0 ndiv nadd nmul nofZ Rops].
   destruct (zget (c_nx c) 0 =? 0)%Z eqn:E.
   - apply Z.eqb_eq in E. rewrite E. unfold zrange. cbn [Z.to_nat seq map gsum n0 Rops]. unfold Rdiv. lra.
-  - rewrite (fold_left_add (fun i => inv_weight Rops (cnt [i]) * vget Rops (sum [i]) 0)).
-    rewrite Rplus_0_l. f_equal. f_equal. apply map_ext. intros i. apply inv_weight_mean.
+  - rewrite (fold_left_add (fun i => smooth_inverse_weight Rops c (cnt [i]) * vget Rops (sum [i]) 0)).
+    rewrite Rplus_0_l. f_equal. f_equal. apply map_ext. intros i. apply siw_ramped; [exact Hmf | apply Hcnt].
 Qed.
 
 Lemma cap1_clip m f : 0 <= m -> cap1 Rops m f = clip m f.
@@ -409,24 +603,23 @@ Proof.
       * nra.
 Qed.
 
-Theorem applied_force_spec c cnt sum b k :
+Theorem applied_force_spec c a cnt sum b k :
   (k < c_nd c)%nat -> (0 <= c_min c < c_full c)%Z -> (forall b', 0 <= cnt b')%Z ->
   (c_cap c = true -> 0 <= vget Rops (c_maxf c) k) ->
-  vget Rops (if c_apply c && index_ok c b then calc_biasing_force Rops c cnt sum b else vzero Rops (c_nd c)) k
-  = spec_force c cnt sum b k.
+  vget Rops (if a && index_ok c b then calc_biasing_force Rops c cnt sum b else vzero Rops (c_nd c)) k
+  = spec_force c a cnt sum b k.
 Proof.
   intros Hk Hmf Hcnt Hcap. unfold spec_force.
-  destruct (c_apply c && index_ok c b); [|apply vget_vzero].
+  destruct (a && index_ok c b); [|apply vget_vzero].
   unfold calc_biasing_force. cbv zeta.
   assert (H0 : vget Rops (vbuild (c_nd c) (fun k0 => nmul Rops (smooth_inverse_weight Rops c (cnt b)) (vget Rops (sum b) k0))) k
-               = ramp c (cnt b) * mean_grad cnt sum b k).
-  { rewrite vget_vbuild by exact Hk. cbn [nmul Rops]. rewrite (siw_ramp c (cnt b) _ Hmf (Hcnt b)).
-    unfold mean_grad. reflexivity. }
+               = ramped c cnt sum b k).
+  { rewrite vget_vbuild by exact Hk. cbn [nmul Rops]. apply siw_ramped; [exact Hmf | apply Hcnt]. }
   destruct (Nat.eqb (c_nd c) 1 && bget (c_periodic c) 0).
   - destruct (c_cap c).
     + rewrite vget_vbuild by exact Hk. rewrite vget_vbuild by exact Hk. rewrite H0.
-      cbn [nsub Rops]. rewrite average_avg. apply cap1_clip. apply Hcap. reflexivity.
-    + rewrite vget_vbuild by exact Hk. rewrite H0. cbn [nsub Rops]. rewrite average_avg. reflexivity.
+      cbn [nsub Rops]. rewrite (average_avg c cnt sum Hmf Hcnt). apply cap1_clip. apply Hcap. reflexivity.
+    + rewrite vget_vbuild by exact Hk. rewrite H0. cbn [nsub Rops]. rewrite (average_avg c cnt sum Hmf Hcnt). reflexivity.
   - destruct (c_cap c).
     + rewrite vget_vbuild by exact Hk. rewrite H0. rewrite Rminus_0_r. apply cap1_clip. apply Hcap. reflexivity.
     + rewrite H0. lra.
@@ -451,11 +644,91 @@ Theorem applied_force_after_history c h i k :
   (k < c_nd c)%nat -> (0 <= c_min c < c_full c)%Z -> (c_cap c = true -> 0 <= vget Rops (c_maxf c) k) ->
   let s := fst (abf_run Rops c h) in
   let s1 := fst (abf_step Rops c s i) in
-  vget Rops (o_fabf (snd (abf_step Rops c s i))) k = spec_force c (s_cnt s1) (s_sum s1) (bins Rops c (i_x i)) k.
+  vget Rops (o_fabf (snd (abf_step Rops c s i))) k = spec_force c (i_apply i) (s_cnt s1) (s_sum s1) (bins Rops c (i_x i)) k.
 Proof.
   intros Hk Hmf Hcap. cbn zeta. unfold abf_step. cbn [fst snd o_fabf s_cnt s_sum].
   unfold st_fabf, st_bin. apply applied_force_spec; try assumption.
   apply cnt_nonneg_step. unfold abf_run. apply cnt_nonneg_run. intros b. unfold abf_init. cbn [s_cnt]. lia.
+Qed.
+
+(* ---- the applied force written directly on the attributed samples of the history (T1 + T2) *)
+
+(* minus the ramped mean force of the samples of bin b *)
+Definition ramped_neg_mean (c : @abf_cfg R) (S : list (idx * @vec R)) (b : idx) (k : nat) : R :=
+  ramp c (cnt_of b S) * (if (0 <? cnt_of b S)%Z then - mean_force S b k else 0).
+
+Definition spec_force_samples (c : @abf_cfg R) (a : bool) (S : list (idx * @vec R)) (b : idx) (k : nat) : R :=
+  if a && index_ok c b then
+    let f := ramped_neg_mean c S b k
+             - (if Nat.eqb (c_nd c) 1 && bget (c_periodic c) 0
+                then rsum (map (fun i => ramped_neg_mean c S [i] 0) (zrange (zget (c_nx c) 0))) / IZR (zget (c_nx c) 0)
+                else 0) in
+    if c_cap c then clip (vget Rops (c_maxf c) k) f else f
+  else 0.
+
+Lemma ramped_of_samples c (cnt : idx -> Z) (sum : idx -> @vec R) S b k :
+  cnt b = cnt_of b S -> vget Rops (sum b) k = - fsum_of k b S ->
+  ramped c cnt sum b k = ramped_neg_mean c S b k.
+Proof.
+  intros Hc Hs. unfold ramped, ramped_neg_mean, mean_grad, mean_force. rewrite Hc, Hs.
+  destruct (0 <? cnt_of b S)%Z eqn:E; [|reflexivity].
+  apply Z.ltb_lt in E. assert (0 < IZR (cnt_of b S)) by (apply IZR_lt; exact E).
+  f_equal. field. lra.
+Qed.
+
+Lemma spec_force_of_samples c a (cnt : idx -> Z) (sum : idx -> @vec R) S b k :
+  (k < c_nd c)%nat ->
+  (forall b', cnt b' = cnt_of b' S) ->
+  (forall b' k', (k' < c_nd c)%nat -> vget Rops (sum b') k' = - fsum_of k' b' S) ->
+  spec_force c a cnt sum b k = spec_force_samples c a S b k.
+Proof.
+  intros Hk Hc Hs. unfold spec_force, spec_force_samples.
+  destruct (a && index_ok c b); [|reflexivity]. cbv zeta.
+  rewrite (ramped_of_samples c cnt sum S b k (Hc b) (Hs b k Hk)).
+  destruct (Nat.eqb (c_nd c) 1 && bget (c_periodic c) 0) eqn:E; [|reflexivity].
+  apply andb_true_iff in E. destruct E as [End _]. apply Nat.eqb_eq in End.
+  assert (H0 : (0 < c_nd c)%nat) by lia.
+  unfold avg_ramped.
+  rewrite (map_ext (fun i => ramped c cnt sum [i] 0) (fun i => ramped_neg_mean c S [i] 0))
+    by (intros i; apply ramped_of_samples; [apply Hc | apply Hs; exact H0]).
+  reflexivity.
+Qed.
+
+(* After ANY history h followed by a step i: the ABF force of that step, in terms of the attributed
+   samples of the whole history h ++ [i] *)
+Theorem applied_force_is_smoothed_negative_mean c h i k a0 :
+  wf_cfg c -> steady c a0 (h ++ [i]) -> (k < c_nd c)%nat -> (0 <= c_min c < c_full c)%Z ->
+  (c_cap c = true -> 0 <= vget Rops (c_maxf c) k) ->
+  vget Rops (o_fabf (snd (abf_step Rops c (fst (abf_run Rops c h)) i))) k
+  = spec_force_samples c (i_apply i) (attributed Rops c (ABFModel.trace_of Rops c (h ++ [i]))) (bins Rops c (i_x i)) k.
+Proof.
+  intros Hwf Hjok Hk Hmf Hcap.
+  pose proof (applied_force_after_history c h i k Hk Hmf Hcap) as H. cbn zeta in H. rewrite H.
+  rewrite <- run_snoc.
+  apply spec_force_of_samples; [exact Hk | |].
+  - intros b'. apply (abf_state_is_sample_sum c (h ++ [i]) b' a0 Hwf Hjok).
+  - intros b' k' Hk'. apply (abf_state_is_sample_sum c (h ++ [i]) b' a0 Hwf Hjok). exact Hk'.
+Qed.
+
+(* the force the bias hands to the variable is that force times the factor of the scaling grid at the
+   current bin (scaledBiasingForce), 1 when the option is off *)
+Theorem applied_force_scaled c s i k :
+  (k < c_nd c)%nat ->
+  vget Rops (o_fapp (snd (abf_step Rops c s i))) k
+  = vget Rops (o_fabf (snd (abf_step Rops c s i))) k * sfac Rops c (bins Rops c (i_x i)).
+Proof.
+  intros Hk. unfold abf_step. cbn [snd o_fapp o_fabf]. unfold st_fapp. rewrite vget_vbuild by exact Hk. reflexivity.
+Qed.
+
+Lemma sfac_unscaled c b : c_scaled c = false -> sfac Rops c b = 1.
+Proof. intros H. unfold sfac. rewrite H. reflexivity. Qed.
+
+(* outside the grid, or with applyBias off, the ABF force is zero *)
+Theorem no_force_outside c s i k :
+  i_apply i && index_ok c (bins Rops c (i_x i)) = false ->
+  vget Rops (o_fabf (snd (abf_step Rops c s i))) k = 0.
+Proof.
+  intros H. unfold abf_step. cbn [snd o_fabf]. unfold st_fabf, st_bin. rewrite H. apply vget_vzero.
 Qed.
 
 (* ---------------------------------------------------------------- zero mean, 1-D periodic *)
@@ -473,43 +746,150 @@ Proof.
   apply in_seq in Hin. lia.
 Qed.
 
-Theorem zero_mean_periodic_partial c cnt sum :
-  c_nd c = 1%nat -> bget (c_periodic c) 0 = true -> c_apply c = true -> c_cap c = false ->
-  (forall i, (0 <= i < zget (c_nx c) 0)%Z -> (c_full c <= cnt [i])%Z \/ cnt [i] = 0%Z) ->
-  (0 <= c_min c < c_full c)%Z ->
-  rsum (map (fun i => spec_force c cnt sum [i] 0) (zrange (zget (c_nx c) 0))) = 0.
+(* for every content of the grid (any counts, any sums): no hypothesis on the sampling *)
+Theorem zero_mean_periodic c cnt sum :
+  c_nd c = 1%nat -> bget (c_periodic c) 0 = true -> c_cap c = false ->
+  rsum (map (fun i => spec_force c true cnt sum [i] 0) (zrange (zget (c_nx c) 0))) = 0.
 Proof.
-  intros Hnd Hper Happ Hcap Hfull Hmf.
+  intros Hnd Hper Hcap.
   set (n := zget (c_nx c) 0) in *.
   assert (Hterm : forall i, In i (zrange n) ->
-            spec_force c cnt sum [i] 0 = mean_grad cnt sum [i] 0 - avg_grad c cnt sum).
-  { intros i Hi. apply zrange_in in Hi. unfold spec_force. rewrite Happ, Hcap, Hnd, Hper.
+            spec_force c true cnt sum [i] 0 = ramped c cnt sum [i] 0 - avg_ramped c cnt sum).
+  { intros i Hi. apply zrange_in in Hi. unfold spec_force. rewrite Hcap, Hnd, Hper.
     assert (Hok : index_ok c [i] = true).
     { unfold index_ok. rewrite Hnd. cbn [seq forallb]. unfold zget at 1 2. cbn [nth]. fold n.
       rewrite andb_true_r. apply andb_true_iff. split; [apply Z.leb_le | apply Z.ltb_lt]; lia. }
-    rewrite Hok. cbn [andb Nat.eqb]. f_equal.
-    destruct (Hfull i Hi) as [Hge|Hz].
-    - unfold ramp. destruct (cnt [i] <? c_min c)%Z eqn:E1; [apply Z.ltb_lt in E1; lia|].
-      destruct (cnt [i] <? c_full c)%Z eqn:E2; [apply Z.ltb_lt in E2; lia|]. lra.
-    - unfold mean_grad. rewrite Hz. cbn [Z.ltb Z.compare]. lra. }
+    rewrite Hok. cbn [andb Nat.eqb]. reflexivity. }
   rewrite (map_ext_in _ _ _ Hterm). rewrite rsum_map_minus.
-  unfold avg_grad. fold n. unfold zrange at 2. rewrite map_length, seq_length.
+  unfold avg_ramped. fold n. unfold zrange at 2. rewrite map_length, seq_length.
   destruct (Z_le_gt_dec n 0) as [Hn|Hn].
   - unfold zrange. replace (Z.to_nat n) with 0%nat by lia. cbn [seq map gsum INR n0 Rops]. lra.
   - rewrite INR_IZR_INZ. rewrite Z2Nat.id by lia. assert (0 < IZR n) by (apply IZR_lt; lia). field. lra.
 Qed.
 
-(* ---------------------------------------------------------------- non-vacuity of T1's premises *)
-Lemma example_clean_trace :
-  let c := @mkCfg R 1 [0%R] [1%R] [2%Z] [false] 2 1 false true false [0%R] false false [false] in
-  let h := [@mkIn R [(1/2)%R] [1%R] [0%R] false; @mkIn R [(1/2)%R] [0%R] [0%R] false] in
-  wf_cfg c /\ (c_same_step c = false -> Forall (clean_io c) (trace_of c h)) /\ length (trace_of c h) = 2%nat.
+(* the same on the attributed samples of a history: the forces that the bias would apply in the bins of
+   the period, as determined by ANY list of samples, sum to zero *)
+Theorem zero_mean_periodic_samples c (S : list (idx * @vec R)) :
+  c_nd c = 1%nat -> bget (c_periodic c) 0 = true -> c_cap c = false ->
+  rsum (map (fun i => spec_force_samples c true S [i] 0) (zrange (zget (c_nx c) 0))) = 0.
 Proof.
-  cbn zeta. split; [|split].
-  - unfold wf_cfg. cbn [c_szd]. intros H. discriminate H.
-  - intros _. unfold ABFModel.trace_of, abf_run. cbn [abf_run_from fst snd combine].
-    apply Forall_cons; [|apply Forall_cons; [|apply Forall_nil]];
-      intros k Hk; cbn [c_nd] in Hk; assert (k = 0%nat) by lia; subst k;
-      (split; [unfold vget; cbn [fst i_x nth n0 Rops]; lra | cbn [c_subtract bget nth]; intros H; discriminate H]).
-  - reflexivity.
+  intros Hnd Hper Hcap.
+  set (cnt := fun b : idx => cnt_of b S).
+  set (sum := fun b : idx => vbuild (c_nd c) (fun k => - fsum_of k b S)).
+  rewrite <- (zero_mean_periodic c cnt sum Hnd Hper Hcap).
+  f_equal. apply map_ext. intros i. symmetry. apply spec_force_of_samples.
+  - lia.
+  - intros b'. reflexivity.
+  - intros b' k' Hk'. unfold sum. rewrite vget_vbuild by exact Hk'. reflexivity.
 Qed.
+
+(* while no bin has more than minSamples samples no force at all is applied, in any bin
+   (before the fix of calc_biasing_force the periodic case subtracted the average of the unramped means) *)
+Lemma rsum_map_zero (g : Z -> R) (l : list Z) : (forall i, g i = 0) -> rsum (map g l) = 0.
+Proof.
+  intros H. induction l as [|x l IH]; cbn [map gsum nadd n0 Rops]; [reflexivity|]. rewrite H, IH. lra.
+Qed.
+
+Lemma clip_zero m : 0 <= m -> clip m 0 = 0.
+Proof.
+  intros Hm. unfold clip, Rmax, Rmin.
+  destruct (Rle_dec m 0) as [H1|H1].
+  - destruct (Rle_dec (- m) m); lra.
+  - destruct (Rle_dec (- m) 0); lra.
+Qed.
+
+Theorem no_force_below_min c a cnt sum b k :
+  (0 <= c_min c < c_full c)%Z -> (c_cap c = true -> 0 <= vget Rops (c_maxf c) k) ->
+  (forall b', (0 <= cnt b' <= c_min c)%Z) ->
+  spec_force c a cnt sum b k = 0.
+Proof.
+  intros Hmf Hcap Hall. unfold spec_force.
+  assert (Hr : forall b' k', ramped c cnt sum b' k' = 0).
+  { intros b' k'. unfold ramped, ramp. destruct (Hall b') as [H0 Hm].
+    destruct (cnt b' <? c_min c)%Z eqn:E1; [lra|].
+    apply Z.ltb_ge in E1. assert (Heq : cnt b' = c_min c) by lia.
+    destruct (cnt b' <? c_full c)%Z eqn:E2; [|apply Z.ltb_ge in E2; lia].
+    rewrite Heq. unfold Rdiv. replace (IZR (c_min c) - IZR (c_min c)) with 0 by lra. lra. }
+  destruct (a && index_ok c b); [|reflexivity]. cbv zeta.
+  rewrite Hr.
+  assert (Ha : avg_ramped c cnt sum = 0).
+  { unfold avg_ramped. rewrite rsum_map_zero by (intros i; apply Hr). unfold Rdiv. lra. }
+  rewrite Ha.
+  assert (Hz : 0 - (if Nat.eqb (c_nd c) 1 && bget (c_periodic c) 0 then 0 else 0) = 0)
+    by (destruct (Nat.eqb (c_nd c) 1 && bget (c_periodic c) 0); lra).
+  rewrite Hz. destruct (c_cap c); [|reflexivity]. apply clip_zero. apply Hcap. reflexivity.
+Qed.
+
+(* ---------------------------------------------------------------- non-vacuity *)
+(* wf_cfg and jac_ok hold for a lagged configuration with hideJacobian and applyBias on *)
+Lemma example_wf_lagged :
+  let c := @mkCfg R 1 [0%R] [1%R] [2%Z] [false] 2 1 true false [0%R] false false [false] true [false] true (fun _ => (1/2)%R) in
+  let h := [@mkIn R [(1/2)%R] [1%R] [0%R] [3%R] false true; @mkIn R [(1/2)%R] [0%R] [0%R] [3%R] false true] in
+  wf_cfg c /\ steady c true h /\ c_hidej c = true /\ c_same_step c = false /\ length (ABFModel.trace_of Rops c h) = 2%nat.
+Proof.
+  cbn zeta. split; [|split; [|split; [|split]]]; try reflexivity.
+  - unfold wf_cfg. cbn [c_szd]. intros H. discriminate H.
+  - intros _ _. repeat constructor.
+Qed.
+
+(* steady is vacuous without hideJacobian and in the same-step convention: applyBias may then be switched
+   at any step *)
+Lemma steady_nohide c a h : c_hidej c = false -> steady c a h.
+Proof. intros H Hh. congruence. Qed.
+Lemma steady_same c a h : c_same_step c = true -> steady c a h.
+Proof. intros H _ Hs. congruence. Qed.
+(* and it holds for every history in which applyBias keeps its configured value *)
+Lemma steady_const c a h : Forall (fun i => i_apply i = a) h -> steady c a h.
+Proof. intros H _ _. exact H. Qed.
+
+(* ---------------------------------------------------------------- applyBias kept at its configured value *)
+Definition apply_const (a : bool) (h : list (@abf_in R)) : Prop := Forall (fun i => i_apply i = a) h.
+
+Theorem abf_state_is_sample_sum_const c h b a :
+  wf_cfg c -> apply_const a h ->
+  s_cnt (fst (abf_run Rops c h)) b = cnt_of b (attributed Rops c (ABFModel.trace_of Rops c h)) /\
+  forall k, (k < c_nd c)%nat ->
+    vget Rops (s_sum (fst (abf_run Rops c h)) b) k = - fsum_of k b (attributed Rops c (ABFModel.trace_of Rops c h)).
+Proof. intros Hwf Hc. exact (abf_state_is_sample_sum c h b a Hwf (steady_const c a h Hc)). Qed.
+
+Theorem abf_sum_vector_const c h b a :
+  wf_cfg c -> apply_const a h ->
+  s_sum (fst (abf_run Rops c h)) b
+  = vbuild (c_nd c) (fun k => - fsum_of k b (attributed Rops c (ABFModel.trace_of Rops c h))).
+Proof. intros Hwf Hc. exact (abf_sum_vector c h b a Hwf (steady_const c a h Hc)). Qed.
+
+Theorem stored_gradient_is_minus_mean_const c h b k a :
+  wf_cfg c -> apply_const a h -> (k < c_nd c)%nat ->
+  let s := fst (abf_run Rops c h) in
+  let S := attributed Rops c (ABFModel.trace_of Rops c h) in
+  s_cnt s b = cnt_of b S /\
+  ((0 < cnt_of b S)%Z -> grad_out Rops (s_cnt s) (s_sum s) b k = - mean_force S b k) /\
+  (cnt_of b S = 0%Z -> grad_out Rops (s_cnt s) (s_sum s) b k = 0).
+Proof. intros Hwf Hc Hk. exact (stored_gradient_is_minus_mean c h b k a Hwf (steady_const c a h Hc) Hk). Qed.
+
+Theorem applied_force_is_smoothed_negative_mean_const c h i k a :
+  wf_cfg c -> apply_const a (h ++ [i]) -> (k < c_nd c)%nat -> (0 <= c_min c < c_full c)%Z ->
+  (c_cap c = true -> 0 <= vget Rops (c_maxf c) k) ->
+  vget Rops (o_fabf (snd (abf_step Rops c (fst (abf_run Rops c h)) i))) k
+  = spec_force_samples c a (attributed Rops c (ABFModel.trace_of Rops c (h ++ [i]))) (bins Rops c (i_x i)) k.
+Proof.
+  intros Hwf Hc Hk Hmf Hcap.
+  rewrite (applied_force_is_smoothed_negative_mean c h i k a Hwf (steady_const c a _ Hc) Hk Hmf Hcap).
+  assert (Hi : i_apply i = a).
+  { unfold apply_const in Hc. rewrite Forall_forall in Hc. apply Hc. apply in_or_app. right. left. reflexivity. }
+  rewrite Hi. reflexivity.
+Qed.
+
+Theorem abf_state_with_input_data_const c l h b a :
+  wf_cfg c -> apply_const a h ->
+  let s0 := abf_init_data Rops c l in
+  let r := abf_run_data Rops c l h in
+  let S := attributed Rops c (ABFModel.trace_from Rops c s0 h) in
+  s_cnt (fst r) b = (data_cnt l b + cnt_of b S)%Z /\
+  forall k, (k < c_nd c)%nat ->
+    vget Rops (s_sum (fst r) b) k = data_sum l b k - fsum_of k b S.
+Proof. intros Hwf Hc. exact (abf_state_with_input_data c l h b a Hwf (steady_const c a h Hc)). Qed.
+
+Lemma example_apply_const :
+  apply_const true [@mkIn R [(1/2)%R] [1%R] [0%R] [3%R] false true; @mkIn R [(1/2)%R] [0%R] [0%R] [3%R] false true].
+Proof. repeat constructor. Qed.
